@@ -84,3 +84,23 @@ theorem plwf_of_layers (g g0 : G) (hsz : g.nodes.size = g0.nodes.size) (hwf : La
   exact (hlen l hl).symm
 
 end Autog
+
+namespace Autog
+
+/-- executable well-formedness check (driver contract `K:layersWF`) -/
+def layersWFb (g : G) : Bool :=
+  let ns := g.layers.toList.flatMap (·.nodes)
+  allPairs (fun a b => a != b) ns && ns.all (fun n => decide (n < g.nodes.size))
+
+theorem allPairs_ne_nodup : ∀ (l : List Nat), allPairs (fun a b => a != b) l = true → l.Nodup
+  | [], _ => List.nodup_nil
+  | x :: xs, h => by
+    simp only [allPairs, Bool.and_eq_true, List.all_eq_true, bne_iff_ne, ne_eq] at h
+    exact List.nodup_cons.2 ⟨fun hm => h.1 x hm rfl, allPairs_ne_nodup xs h.2⟩
+
+theorem layersWFb_sound (g : G) (h : layersWFb g = true) : LayersWF g := by
+  unfold layersWFb at h
+  simp only [Bool.and_eq_true, List.all_eq_true, decide_eq_true_eq] at h
+  exact ⟨allPairs_ne_nodup _ h.1, h.2⟩
+
+end Autog
